@@ -193,6 +193,7 @@ class set_prime(ContractBase):
     params = {'self': IFACE, 'key': ATOM, 'value': VAL}
     returns = BOOL
     modifies = ['ghost.last_exists']
+    externs = {'dawgie.db.util.encode': Extern(ret=ATOM)}      # here only its result is passed on (what encode does: contract `encode` below)
 
     def ensures(c):
         return {'answers-whether-the-content-existed': c.result == c.cur.g('ghost.last_exists')}
@@ -245,3 +246,80 @@ def _update_contract(qual, loop_heads):
 
 iface_update = _update_contract('Interface._update', ['for sv in self._alg().state_vectors()', 'for k in sv.keys()'])
 iface_update_msv = _update_contract('Interface._update_msv', ['for k in msv.keys()'])
+
+
+# ------------------------------------------------------------------------------------------------ db.util.encode
+import ast as _ast07
+W.declare_global('dawgie.context.data_stg', ATOM)
+W.declare_global('ghost.staged_in', Opt(ATOM))                # the directory the staging file was created in
+W.declare_global('ghost.written', MapOf(STAGED, ATOM))        # what was written into a staging file (its pickled bytes)
+PICKLED = z3.Function('pickled', ATOM.sort(), ATOM.sort())                     # pickle.dumps(value, HIGHEST_PROTOCOL)
+tool_sum = z3.Function('checksum_of', ATOM.sort(), ATOM.sort(), ATOM.sort())   # (tool, content) -> the hex digest the tool prints
+digest_name = z3.Function('joined', ATOM.sort(), ATOM.sort(), ATOM.sort())     # '_'.join([m, s])
+WR = MapOf(STAGED, ATOM)
+FH = Rec('StageHandle', {'path': STAGED})
+
+
+def _mkstemp(ex, args, kwargs, e):
+    d = kwargs.get('dir')
+    fn = ex.fresh('staging_file', STAGED)
+    ex.assume(Not(ex.st.glob[STG][fn]))
+    for g, v in (('ghost.staged_in', Opt(ATOM).some(ex.to_z3(d, ATOM))), (STG, z3.Store(ex.st.glob[STG], fn, True))):
+        ex._note_write(g, e.lineno)
+        ex.st.glob[g] = v
+    return (V(ex.fresh('fd', INT), INT), V(fn, STAGED))
+
+
+def _pickle_dump(ex, args, kwargs, e):
+    h = ex.to_z3(args[1], FH)
+    ex._note_write('ghost.written', e.lineno)
+    ex.st.glob['ghost.written'] = z3.Store(ex.st.glob['ghost.written'], FH.get(h, 'path'), WR.opt.some(PICKLED(ex.to_z3(args[0], ATOM))))
+    return None
+
+
+def _check_output(ex, args, kwargs, e):
+    """md5sum/sha1sum -b <file>: the digest of what the file holds at that moment"""
+    cmd = args[0]
+    if not (isinstance(cmd, list) and len(cmd) == 3 and cmd[0] in ('md5sum', 'sha1sum') and cmd[1] == '-b'):
+        raise Unsupported('subprocess.check_output(%r)' % (cmd,))
+    fn = ex.to_z3(cmd[2], STAGED)
+    w = ex.st.glob['ghost.written'][fn]
+    ex.vc('safe.digest-of-a-written-file@%d' % e.lineno, Not(WR.opt.is_none(w)), e.lineno)
+    return V(tool_sum(atom(cmd[0]), WR.opt.val(w)), ATOM)
+
+
+_we07 = W.with_enter
+
+
+def _with_enter07(ex, item, line):
+    call = item.context_expr
+    if isinstance(call, _ast07.Call) and isinstance(call.func, _ast07.Name) and call.func.id == 'open':
+        p = ex.eval(call.args[0])
+        if isinstance(p, V) and p.ty == STAGED:
+            return V(FH.mk(p.t), FH)
+    return _we07(ex, item, line)
+
+
+W.with_enter = _with_enter07
+
+
+@contract(W, 'dawgie/db/util/__init__.py', 'encode', props=['C07'])
+class encode(ContractBase):
+    """the value is pickled into a fresh file of the STAGING area, and named after the md5 and sha1 digests of exactly the
+    bytes that were written"""
+    params = {'value': ATOM}
+    returns = Tup(STAGED, BLOB)
+    modifies = [STG, 'ghost.staged_in', 'ghost.written']
+    externs = {'tempfile.mkstemp': Extern(fn=_mkstemp), 'os.close': Extern(drop=True), 'os.chmod': Extern(drop=True),
+               'pickle.dump': Extern(fn=_pickle_dump), 'subprocess.check_output': Extern(fn=_check_output),
+               'dawgie.db.util._extract': Extern(fn=lambda ex, a, k, e: a[0])}         # the digest is the first word of the tool's output
+    abstract = {"int('0664', 8)": INT, "'_'.join([m, s])": lambda ex, e: V(digest_name(ex.to_z3(ex.st.env['m'], ATOM), ex.to_z3(ex.st.env['s'], ATOM)), ATOM),
+                'pickle.HIGHEST_PROTOCOL': INT}
+
+    def ensures(c):
+        RT = Tup(STAGED, BLOB)
+        fn, name = RT.get(c.result, '_0'), RT.get(c.result, '_1')
+        content = PICKLED(c['value'])
+        return {'staged-outside-the-store': c.cur.g('ghost.staged_in') == Opt(ATOM).some(c.old.g('dawgie.context.data_stg')),
+                'fresh-staging-file-holds-the-pickle': And(Not(c.old.g(STG)[fn]), c.cur.g(STG)[fn], c.cur.g('ghost.written')[fn] == WR.opt.some(content)),
+                'named-by-the-digests-of-those-bytes': name == digest_name(tool_sum(atom('md5sum'), content), tool_sum(atom('sha1sum'), content))}
